@@ -178,6 +178,7 @@ def stage_static(p):
         an = [refmap.norm_ident(f["name"]) for f in actual]
         en = [m["snake"] for m in exp]
         e["shape_ok"] = an == en
+        e["names_ok"] = sorted(an) == sorted(en) and len(set(an)) == len(an)
         if an != en:
             missing = [m for m in exp if m["snake"] not in an]
             extra = [f for f in actual if refmap.norm_ident(f["name"]) not in en]
